@@ -4,6 +4,7 @@ package c17
 import (
 	"errors"
 	"fmt"
+	"io"
 	"math/rand"
 	"testing"
 
@@ -581,6 +582,20 @@ func checkErrors(run *ev.Run, caseID string, r *rand.Rand) {
 			s, c, m, re := mk()
 			send = append(send, st{s, c, m, re})
 			ce.Send = append(ce.Send, s.Err())
+		}
+		// errors that are not statuses count like any other recorded error: the end-of-stream
+		// marker, a wrapped one, a transport error
+		odd := []error{io.EOF, fmt.Errorf("stream ended: %w", io.EOF), errors.New("transport is closing"), io.ErrUnexpectedEOF}
+		if r.Intn(4) == 0 {
+			ce.Recv = append(ce.Recv, odd[r.Intn(len(odd))])
+			if r.Intn(2) == 0 {
+				ce.Recv[0], ce.Recv[len(ce.Recv)-1] = ce.Recv[len(ce.Recv)-1], ce.Recv[0]
+			}
+			run.Count("client_errors_with_non_status_entries", 1)
+		}
+		if r.Intn(4) == 0 {
+			ce.Send = append(ce.Send, odd[r.Intn(len(odd))])
+			run.Count("client_errors_with_non_status_entries", 1)
 		}
 		err = ce
 	}
